@@ -193,8 +193,8 @@ type Q struct {
 	Api     string `json:"api,omitempty"` // with Rpc: "" = v10, "v9", "v8" (one address at most; v8: no pre-confirmed blocks)
 	Pre     []Plan `json:"pre,omitempty"`
 	PreBack int    `json:"pre_back,omitempty"` // the pre-confirmed chain was built on block head-PreBack (its first block is head-PreBack+1)
-	Tok     string `json:"token,omitempty"`   // start from this (forged) continuation token instead of the first page
-	L1      int    `json:"l1_head,omitempty"` // the node's L1 head (block id `l1_accepted`; rpc v9 / v10)
+	Tok     string `json:"token,omitempty"`    // start from this (forged) continuation token instead of the first page
+	L1      int    `json:"l1_head,omitempty"`  // the node's L1 head (block id `l1_accepted`; rpc v9 / v10)
 }
 
 const sentinel = math.MaxUint64
@@ -320,7 +320,7 @@ func (w *World) mkPre(plans []Plan, back int) []*pending.PreConfirmed {
 
 // realPage asks the real code for one page. tok "" = first page.
 func realPage(n *Node, w *World, q Q, pre []*pending.PreConfirmed, tok string) (pg Page) {
-	done := lib.WithDeadline(120*time.Second, func() {
+	done := lib.WithDeadline(600*time.Second, func() {
 		err, panicked, _ := lib.Try(func() error {
 			addrs, keys := q.F.real()
 			if q.Rpc {
@@ -393,4 +393,3 @@ func realPage(n *Node, w *World, q Q, pre []*pending.PreConfirmed, tok string) (
 	}
 	return pg
 }
-
